@@ -818,9 +818,9 @@ _BTree_set(BTree *self, PyObject *keyarg, PyObject *value,
             toobig = childlength > max_size;
         }
         if (toobig) {
+            changed = 1;        /* BTree_grow mutates self, even if it fails */
             if (BTree_grow(self, min, noval) < 0)
                 goto Error;
-            changed = 1;        /* BTree_grow mutated self */
         }
         goto Done;      /* and status still == 1 */
     }
@@ -993,6 +993,20 @@ Error:
         */
         _BTree_clear(self);
     }
+#ifdef PERSISTENT
+    else if (changed)
+    {
+        /* self (or the bucket it embeds) was modified before the failure,
+        * e.g. a child was split and BTree_split_root then ran out of memory:
+        * the next commit must store it.  Keep the original exception.
+        */
+        PyObject *et, *ev, *tb;
+        PyErr_Fetch(&et, &ev, &tb);
+        if (PER_CHANGED(self) < 0)
+            PyErr_Clear();
+        PyErr_Restore(et, ev, tb);
+    }
+#endif
     PER_UNUSE(self);
     return -1;
 }
